@@ -1,6 +1,6 @@
 (* Dispatcher used by both evaluation routes (vm_compute in cases.v, extracted runner). *)
 From Coq Require Import String List Bool.
-From HV Require Import Base.Sexp Model.DepKeys Model.Merge Model.Validate Model.Ref Model.Completion.
+From HV Require Import Base.Sexp Model.DepKeys Model.Merge Model.Validate Model.Ref Model.Completion Model.BodyQueries.
 Import ListNotations.
 Open Scope string_scope.
 
@@ -10,6 +10,8 @@ Definition run_kind (kind : string) (args : list sexp) : option sexp :=
   else if String.eqb kind "validate" then run_validate args
   else if String.eqb kind "completion" then run_completion args
   else if String.eqb kind "completions" then run_completions args
+  else if String.eqb kind "tokens" then run_tokens args
+  else if String.eqb kind "symbols" then run_symbols args
   else run_ref kind args.
 
 (* (case <id> (<kind> args...) <observed>)  ->  (<id> ok) | (<id> diff <model-output>) | (<id> badinput) *)
